@@ -56,7 +56,7 @@ def run(spec, pid, tier, seed, replay=None):
     ctx = {"tier": tier, "seed": seed, "tables": tables, "replay": None}
     if replay:
         ctx["replay"] = json.load(open(replay))
-    cases = list(spec["cases"](ctx))
+    cases = [] if (replay and ctx["replay"].get("op")) else list(spec["cases"](ctx))
 
     # driver part
     reqs = [c.request for c in cases if c.request is not None]
@@ -107,6 +107,31 @@ def run(spec, pid, tier, seed, replay=None):
         if len(samples) < 5:
             samples.append(core.trim({"case": c.desc, "oracle": oracle, "classes": classes}, 900))
 
+    # in-process harness groups of this property (function-level ops through the same driver)
+    tally = core.Tally(pid, known)
+    if not replay:
+        for g in spec.get("groups", []):
+            rq, rs = core.pipeline("%s.%s" % (pid, g), [core.TGH, g, "--tier", tier, "--seed", str(seed)])
+            tally.consume(g, rq, rs)
+    elif ctx["replay"].get("op"):
+        rq, rs = core.pipeline(pid + ".replay", [core.TGH, "replay"], stdin_path=replay)
+        tally.consume("replay", rq, rs)
+    for st, i, e in tally.driver_errors:
+        driver_errors.append((st, e))
+    for st, i in tally.disagreements:
+        rq, rs = tally.case(st, i)
+        disagreements.append({"case": {"op": rq["op"], "in": rq["in"]}, "impl": rq["impl"], "model": rs.get("model"), "oracle": rs.get("oracle_impl")})
+    for st, i, bad in tally.violations:
+        rq, rs = tally.case(st, i)
+        violations.append({"case": {"op": rq["op"], "in": rq["in"]}, "op": rq["op"], "in": rq["in"], "impl": rq["impl"],
+                           "model": rs.get("model"), "failed_oracles": bad})
+    for cl, n in tally.known_hits.items():
+        known_hits[cl] = known_hits.get(cl, 0) + n
+    for cl, n in tally.class_hist.items():
+        class_hist[cl] = class_hist.get(cl, 0) + n
+    nontrivial |= tally.nontrivial
+    samples += tally.samples[:3]
+
     if replay:
         bad = bool(violations or disagreements or known_hits)
         for v in (violations + disagreements)[:3]:
@@ -120,7 +145,8 @@ def run(spec, pid, tier, seed, replay=None):
 
     violation_lines = []
     if violations:
-        p = core.write_replay(pid, {"replay_case": violations[0]["case"], "failed_oracles": violations[0]["failed_oracles"],
+        v0 = violations[0]
+        p = core.write_replay(pid, {"replay_case": v0["case"], "op": v0.get("op"), "in": v0.get("in"), "failed_oracles": v0["failed_oracles"],
                                     "record": core.trim(violations[0], 20000), "seed": seed, "tier": tier,
                                     "total_failing_cases": len(violations)})
         violation_lines.append("VIOLATION property=%s replay=%s" % (pid, os.path.relpath(p, core.ROOT)))
@@ -148,7 +174,8 @@ def run(spec, pid, tier, seed, replay=None):
         "obligations": obligations, "discharged": discharged, "checker_cmd": checker_cmd or "lake build (failed)",
         "trusted_base": spec["trusted_base"],
         "theorems": [{"name": n, "axioms": ax, "ok": ok} for n, ax, ok in audit_res],
-        "evaluations": len(cases), "distinct_nontrivial": len(nontrivial),
+        "evaluations": len(cases) + tally.evaluations, "distinct_nontrivial": len(nontrivial),
+        "cases_by_op": tally.by_op,
         "rule": spec["rule"], "samples": samples,
         "exhaustive": spec.get("exhaustive", {}).get(tier, False),
         "exhaustive_scope": spec.get("exhaustive_scope", {}).get(tier, ""),
